@@ -323,3 +323,67 @@ Theorem C14_reader_builds_kernel_tree : forall ct cd cs cc cm cr,
     RGood ct cd cs cc cm cr r' /\ RExt r r'.
 Proof. exact reader_builds_kernel_tree. Qed.
 Print Assumptions C14_reader_builds_kernel_tree.
+
+(* ---- strand-notation complexes, macrostate members, reaction members ---- *)
+From Coq Require Import Permutation.
+From DSD Require Import Proofs.ReaderMore.
+
+(* `structure X = s1 + s2 : ..` and `complex X = / s1 s2 / ..` (one typed statement SSC): under a free
+   complex name the filed complex is new; its sequence is the concatenation of the sequences of the
+   strands registered under the listed names joined by `+`, its structure the dot-bracket string
+   without blanks *)
+Theorem C14_reader_builds_strand_complex : forall ct cd cs cc cm cr,
+  cfg_okb ct cd cs cc cm cr = true ->
+  forall line nm ss sst acc r r' acc',
+  decode line = Ok (SSC nm ss sst) -> Forall (fun s => nonempty s = true) ss -> nonempty nm = true ->
+  RGood ct cd cs cc cm cr r ->
+  nlookup nm (cs_names (cget (r_st r) cc)) = None ->
+  read_one ct (g cd cs cc cm cr) None (TList line) acc r = (r', Ok acc') ->
+  exists i ob stab sq t,
+    hget (heap (r_st r')) i = Some ob /\ o_live ob = true /\ o_cls ob = cc /\ o_name ob = nm /\
+    acc' = with_complexes acc (dset nm i (po_complexes acc)) /\
+    Forall2 (fun s es => SeqH cs (heap (r_st r')) s es) ss stab /\
+    strand_table_to_sequence (sPlus, @None nat) stab = Ok sq /\
+    o_data ob = DCplx sq (filter (fun c => negb (N.eqb c 32%N)) sst) t /\
+    RGood ct cd cs cc cm cr r' /\ RExt r r'.
+Proof. exact reader_builds_strand_complex. Qed.
+Print Assumptions C14_reader_builds_strand_complex.
+
+(* macrostates: under a free name the filed macrostate is new; its members are, in the listed order, the
+   live registered complex singletons of the listed names; the representative carries the name *)
+Theorem C14_reader_builds_macrostate : forall ct cd cs cc cm cr,
+  cfg_okb ct cd cs cc cm cr = true ->
+  forall line nm xs acc r r' acc',
+  decode line = Ok (SMac nm xs) -> Forall (fun x => nonempty x = true) xs -> nonempty nm = true ->
+  RGood ct cd cs cc cm cr r ->
+  nlookup nm (cs_names (cget (r_st r) cm)) = None ->
+  read_one ct (g cd cs cc cm cr) None (TList line) acc r = (r', Ok acc') ->
+  exists i ob ids rep,
+    hget (heap (r_st r')) i = Some ob /\ o_live ob = true /\ o_cls ob = cm /\ o_name ob = nm /\
+    acc' = with_macros acc (dset nm i (po_macrostates acc)) /\
+    o_data ob = DMac ids rep /\ Forall2 (MemberIs cc (r_st r')) xs ids /\
+    In rep ids /\ obj_name (heap (r_st r')) rep = nm /\
+    RGood ct cd cs cc cm cr r' /\ RExt r r'.
+Proof. exact reader_builds_macrostate. Qed.
+Print Assumptions C14_reader_builds_macrostate.
+
+(* reactions: the reaction object is the one whose rate constant the statement sets; when it did not
+   exist before the statement its reactants / products are permutations (the sort by canonical form)
+   of the live registered singletons of the listed names - macrostates for `condensed`, complexes
+   otherwise *)
+Theorem C14_reader_builds_reaction_members : forall ct cd cs cc cm cr,
+  cfg_okb ct cd cs cc cm cr = true ->
+  forall line ri k acc r r' acc',
+  decode line = Ok (SRxn ri) -> ri_rate ri = Some k ->
+  Forall (fun x => nonempty x = true) (ri_reactants ri ++ ri_products ri) -> RGood ct cd cs cc cm cr r ->
+  read_one ct (g cd cs cc cm cr) None (TList line) acc r = (r', Ok acc') ->
+  exists i ob,
+    hget (heap (r_st r')) i = Some ob /\ o_live ob = true /\ o_cls ob = cr /\
+    r_rate r' = (i, (k, ri_units ri)) :: r_rate r /\
+    (length (heap (r_st r)) <= i ->
+     exists a c re pr,
+       o_data ob = DRxn a c (ri_type ri) /\ Permutation a re /\ Permutation c pr /\
+       Forall2 (MemberIs (member_cls cc cm ri) (r_st r')) (ri_reactants ri) re /\
+       Forall2 (MemberIs (member_cls cc cm ri) (r_st r')) (ri_products ri) pr).
+Proof. exact reader_builds_reaction_members. Qed.
+Print Assumptions C14_reader_builds_reaction_members.
